@@ -380,8 +380,11 @@ def _body_entropy(which, variant):
         else:
             df, keys, feats = _table(sym, 4, nkeys=2, nfeat=2, fixed_keys=[0, 0, 1, 1], free2=(1, 2) if variant == "joint" else ())
         base = sym.sym_real("base", lo=0)
-        sym.assume(so.gt(base, 1))
-        sym.assume(so.gt(np_model.log(base), 0))        # the one fact about the uninterpreted log that is needed: log(base) > 0 for base > 1
+        # any base a logarithm can have: positive and different from 1 (a base below 1 flips the sign).  The one fact about the uninterpreted log
+        # that is needed: log(base) > 0 for base > 1 and log(base) < 0 for base < 1
+        lb = np_model.log(base)
+        sym.assume(so.gt(base, 0))
+        sym.assume(so.b_or(so.b_and(so.gt(base, 1), so.gt(lb, 0)), so.b_and(so.lt(base, 1), so.lt(lb, 0))))
         if which == "renyi2":
             if variant == "single":
                 got, pcv = entropy.renyi2_entropy(df, "x0", base=base), stats.pc(df["x0"])
@@ -397,7 +400,9 @@ def _body_entropy(which, variant):
                     return (isinstance(got, float) and got == float("inf")), f"pc = 0 but entropy {got!r}"
                 return so.close(got, so.mul(-1, np_model.log(pcv)), 1e-9), f"entropy {got!r}"
             if not so.is_symbolic(pcv) and pcv == 0:
-                return (isinstance(got, float) and got == float("inf")), f"pc = 0 but entropy {got!r} (expected +inf)"
+                # -log(0) / log(base): infinite, with the sign of log(base) - the sign is decided by the real-stack replay (the real-number encoding has no signed infinity)
+                import math
+                return (isinstance(got, float) and math.isinf(got)), f"pc = 0 but entropy {got!r} (expected an infinity)"
             want = np_model._div(so.mul(-1, np_model.log(pcv)), np_model.log(base))
             return so.close(got, want, 1e-9), (lambda: f"renyi2_entropy = {_realize(got)}")
         if variant == "single":
@@ -475,5 +480,5 @@ def conditions(tier):
     for which, variants in (("renyi2", ("single", "joint", "conditional", "conditional_joint", "natural")), ("stdrenyi2", ("single", "joint"))):
         for v in variants:
             out.append(Condition(f"C13/{which}_entropy/{v}", _body_entropy(which, v), _replay_entropy(which, v), budget=900, models=M,
-                                 bounds="4 rows, 2 symbolic groups, 2 feature columns, symbolic base > 1"))
+                                 bounds="4 rows, 2 symbolic groups, 2 feature columns, symbolic base > 0, != 1"))
     return out
